@@ -22,7 +22,12 @@ func init() { Registry["C12"] = c12 }
 // anyWorld draws a world from the shared corpus: honest, or with one injected fault of any family.
 func anyWorld(r *mrand.Rand) (*world.World, string) {
 	w := richHonest(r)
-	switch k := r.Intn(12); k {
+	switch k := r.Intn(13); k {
+	case 12:
+		// the root certificate carried in the quote has expired; the pool holds a renewed certificate for the same key and name
+		old := world.Issue(world.RootTemplate(world.Window{NotBefore: world.Far.NotBefore, NotAfter: world.Epoch.Add(-10 * world.Day)}), nil, w.PKI.Root.Key)
+		w.Q.Chain = world.ChainPEM(false, w.PKI.Leaf, w.PKI.Inter, old)
+		return w, "c06/root-in-quote-expired-pool-root-renewed"
 	case 0, 1, 2:
 		return w, "honest"
 	case 3:
